@@ -22,6 +22,7 @@ import (
 
 // Impl runs protocol operations against the real implementation built from /repo.
 type Impl struct {
+	raw            bool   // open the database on the adapter's store itself, without the tracing wrapper
 	backend        string // bbolt | badger-mem | badger-disk
 	root           string // scratch root (removed by the caller)
 	dir            string
@@ -65,7 +66,13 @@ func (im *Impl) open() {
 		panic(err)
 	}
 	im.xs = NewXStore(st)
-	db, err := clover.OpenWithStore(im.xs)
+	var handle store.Store = im.xs
+	if im.raw {
+		// the store exactly as the adapter returns it (optional interfaces a wrapper would hide stay visible): used by
+		// the child processes of the kill streams, which need neither traces nor faults
+		handle = st
+	}
+	db, err := clover.OpenWithStore(handle)
 	if err != nil {
 		panic(err)
 	}
